@@ -92,6 +92,31 @@ class LatencyDictLoader(DictLoader):
         return self.get_source(env, template_name, context=context, **kwargs)
 
 
+class EnvAwareLoader(liquid.loader.BaseLoader):
+    """ONE loader object shared by several environments that serves every environment its own
+    sources (get_source receives the environment): templates stored once, delivered in the syntax
+    of whoever asks.  The asynchronous path suspends for a seeded latency."""
+
+    def __init__(self):
+        super().__init__()
+        self.by_env = {}
+
+    def register(self, env, sources):
+        self.by_env[id(env)] = (env, dict(sources))
+
+    def get_source(self, env, template_name, *, context=None, **kwargs):
+        try:
+            return liquid.loader.TemplateSource(self.by_env[id(env)][1][template_name], template_name, None)
+        except KeyError:
+            raise liquid.exceptions.TemplateNotFoundError(template_name) from None
+
+    async def get_source_async(self, env, template_name, *, context=None, **kwargs):
+        loop = LOOP_REF[0]
+        if loop is not None:
+            await loop.latency("envaware")
+        return self.get_source(env, template_name, context=context, **kwargs)
+
+
 class ConstructionFault(Exception):
     pass
 
@@ -127,6 +152,8 @@ def guest_tree(spec):
 
 def fresh_shared_style_loader(mode, sources, keep):
     """A loader of the kind the run shares between its environments, built afresh (nothing shared)."""
+    if mode == "shared_envaware":
+        return EnvAwareLoader()
     if mode == "shared_choice":
         # a plain (non-caching) choice loader only moves source text, so ONE instance may serve several
         # environments - even when its delegates are caching loaders, whose caches it never consults
@@ -145,6 +172,8 @@ def build_env_c11(spec, delims, loader_sources, loader=None, keep=None):
     if loader is None and spec.get("loader_mode"):
         loader = fresh_shared_style_loader(spec["loader_mode"], spec["shared_sources"], keep if keep is not None else [])
     env = G.build_env(spec["recipe"], loader or LatencyDictLoader(dict(loader_sources)), delims)
+    if isinstance(env.loader, EnvAwareLoader):
+        env.loader.register(env, loader_sources)
     apply_custom(env, spec["label"], spec["custom"])
     for m in spec["mutations"]:
         apply_mutation(env, spec["label"], m)
@@ -240,6 +269,8 @@ def norm(o):
 
 def probe_outcome(env, source, data_spec, what):
     def f():
+        if what.startswith("load:"):   # a stored template requested by name through the environment's loader
+            return env.get_template(what[5:]).render(**build_data(data_spec, None))
         if what == "env_render":      # the convenience entry point: parse and render in one call
             return env.render(source, **build_data(data_spec, None))
         t = env.from_string(source)
@@ -496,7 +527,13 @@ class C11:
                 # several environments render concurrently on one event loop (their partials share names)
                 op["items"] = [{"spec": rng.randrange(len(specs)), "tree": rng.randrange(len(trees)),
                                 "data": rng.randrange(len(datas)), "uid": uid * 100 + j}
-                               for j in range(rng.randint(2, 4))]
+                               for j in range(rng.randint(2, 5))]
+                if pnames and rng.chance(0.5):
+                    # top-level requests for one stored template by name (no render context involved)
+                    nm = rng.choice(pnames)
+                    for it in op["items"]:
+                        if rng.chance(0.8):
+                            it["load"] = nm
                 op["lat_seed"] = rng.randrange(1 << 30)
             elif k == "failed_env":
                 op["fail_at"] = rng.randint(1, 24)     # the add_tag call of the constructor that raises
@@ -526,8 +563,8 @@ class C11:
               # how the environments of this run get their loader: each its own (None), ONE shared plain
               # choice loader over caching delegates, or each its own call of make_file_system_loader()
               # with equal arguments; the partials then exist once, written in specs[0]'s delimiters
-              "loader_mode": rng.weighted([(None, 7), ("shared_choice", 1.5), ("fsfactory", 1.5)])}
-        if sc["loader_mode"]:
+              "loader_mode": rng.weighted([(None, 6), ("shared_choice", 1.5), ("fsfactory", 1.5), ("shared_envaware", 1.5)])}
+        if sc["loader_mode"] in ("shared_choice", "fsfactory"):
             # these loaders cache PARSED templates: re-configuring an environment (delimiters, tolerance,
             # tags, flags) cannot - and need not - re-parse what its own loader has cached, while the
             # reference parses everything under the final configuration; the two are not combined
@@ -609,6 +646,9 @@ class C11:
             return delims0_of(i)
 
         lmode = sc.get("loader_mode")
+        envaware = lmode == "shared_envaware"
+        if envaware:
+            lmode = None          # every environment keeps its own sources and its canonical twin; only the
         shared_sources = sources_for(sc["specs"][0], sc["delim_sets"][sc["specs"][0]["delims"]]) if lmode else None
         keep_fs = []
         shared_loader = [None]
@@ -620,6 +660,11 @@ class C11:
                 fsd.write("tpl/" + nm, src, 1)
 
         def loader_for_env():
+            if envaware:                      # loader OBJECT is shared
+                if shared_loader[0] is None:
+                    shared_loader[0] = EnvAwareLoader()
+                bump(st, "reach.shared_loader")
+                return shared_loader[0]
             if lmode == "shared_choice":
                 if shared_loader[0] is None:
                     shared_loader[0] = fresh_shared_style_loader("shared_choice", shared_sources, keep_fs)
@@ -628,6 +673,11 @@ class C11:
             if lmode == "fsfactory":
                 bump(st, "reach.factory_loader_equal_args")
                 return liquid.make_file_system_loader(keep_fs[0].path("tpl"), ext="")
+            if lmode == "shared_envaware":
+                if shared_loader[0] is None:
+                    shared_loader[0] = EnvAwareLoader()
+                bump(st, "reach.shared_loader")
+                return shared_loader[0]
             return None
 
         def cur_spec(i):
@@ -829,7 +879,10 @@ class C11:
                     loop.streams[asyncio.current_task().get_name()] = loop.rng.fork("item", it["uid"])
                     await loop.latency("start")
                     async def go():
-                        t = env.from_string(src)
+                        if it.get("load"):
+                            t = await env.get_template_async(it["load"])
+                        else:
+                            t = env.from_string(src)
                         return await t.render_async(**build_data(dspec, None))
                     outs[it["uid"]] = norm(await outcome_async(go()))
 
@@ -852,9 +905,10 @@ class C11:
                     dspec = sc["datas"][it["data"]]
                     spec = cur_spec(ii)
                     csrc = G.render_source(tr, G.DEFAULT_DELIMS)
-                    key = digest(("p", spec, d, src, dspec, "render"))
+                    what = ("load:" + it["load"]) if it.get("load") else "render"
+                    key = digest(("p", spec, d, src, dspec, what))
                     probe = {"kind": "probe", "spec": spec, "delims": d, "source": src,
-                             "canon_source": None if lmode else csrc, "data": dspec, "what": "render"}
+                             "canon_source": None if lmode else csrc, "data": dspec, "what": what}
                     history.append([it["uid"], "async", ii, got[0], got[1] if got[0] == "err" else digest(got[1])])
                     res["probes"].append({"uid": it["uid"], "op": {**op, "item": it}, "kind": "render", "key": key,
                                           "probe": probe, "got": got, "delims": d})
